@@ -6,10 +6,10 @@ package main
 import (
 	"fmt"
 	"go/ast"
-	"os"
 	"go/constant"
 	"go/token"
 	"go/types"
+	"os"
 	"sort"
 	"strings"
 
@@ -257,7 +257,7 @@ func (ex *Exec) execFunc(st *State, fn *ssa.Function, args []*Val, binds []*Val,
 // ---------------------------------------------------------------- loops
 
 type loopInfo struct {
-	heads map[*ssa.BasicBlock]int           // loop head -> ordinal in source order
+	heads map[*ssa.BasicBlock]int // loop head -> ordinal in source order
 	body  map[*ssa.BasicBlock]map[*ssa.BasicBlock]bool
 }
 
